@@ -535,6 +535,67 @@ func checkSortLookup(p *Prog, r *Report, nameF *types.Var, find *ssa.Function) {
 			}
 		}
 	}
+	// equivalent form: _, found := slices.BinarySearchFunc(list, name, func(f *File, n string) int { return strings.Compare(f.Name, n) })
+	allCalls(find, func(c ssa.CallInstruction) {
+		sc := c.Common().StaticCallee()
+		if sc == nil || sc.Origin() == nil || sc.Origin().String() != "slices.BinarySearchFunc" || len(c.Common().Args) != 3 {
+			return
+		}
+		a := c.Common().Args
+		if a[0] != ssa.Value(find.Params[0]) || a[1] != ssa.Value(find.Params[1]) {
+			return
+		}
+		var lit *ssa.Function
+		switch x := stripConv(a[2]).(type) {
+		case *ssa.MakeClosure:
+			lit, _ = x.Fn.(*ssa.Function)
+		case *ssa.Function:
+			lit = x
+		}
+		if lit == nil || len(lit.Params) != 2 {
+			return
+		}
+		cmpOK := true
+		nRet := 0
+		for _, b := range lit.Blocks {
+			ret, ok := lastInstr(b).(*ssa.Return)
+			if !ok {
+				continue
+			}
+			nRet++
+			cc, ok := retResults(ret)[0].(*ssa.Call)
+			if !ok {
+				cmpOK = false
+				continue
+			}
+			nm := calleeName(cc)
+			if o := cc.Common().StaticCallee(); o != nil && o.Origin() != nil {
+				nm = o.Origin().String()
+			}
+			if nm != "strings.Compare" && nm != "cmp.Compare" {
+				cmpOK = false
+				continue
+			}
+			ca := cc.Common().Args
+			base, fld := loadedField(ca[0])
+			if fld != nameF || base != ssa.Value(lit.Params[0]) || ca[1] != ssa.Value(lit.Params[1]) {
+				cmpOK = false
+			}
+		}
+		// the function returns the `found` result
+		retFound := true
+		for _, b := range find.Blocks {
+			if ret, ok := lastInstr(b).(*ssa.Return); ok {
+				ex, ok := retResults(ret)[0].(*ssa.Extract)
+				if !ok || ex.Index != 1 || ex.Tuple != c.Value() {
+					retFound = false
+				}
+			}
+		}
+		if cmpOK && nRet > 0 && retFound {
+			okGE, okEQ = true, true
+		}
+	})
 	r.Cond(okGE, rule, "findInFileList search predicate", p.Pos(find.Pos()), "sort.Search predicate must be list[i].Name >= name")
 	r.Cond(okEQ, rule, "findInFileList equality", p.Pos(find.Pos()), "result must be list[i].Name == name for the index found")
 	// ReceiveFileList returns the list it sorted
@@ -647,7 +708,10 @@ func checkIOErrorSticky(p *Prog, r *Report) {
 				self func(ssa.Value) bool
 			}
 			var stores []storeAt
-			selfHere := func(x ssa.Value) bool { l, ok := x.(*ssa.UnOp); return ok && l.Op == token.MUL && l.X == ssa.Value(cell) }
+			selfHere := func(x ssa.Value) bool {
+				l, ok := x.(*ssa.UnOp)
+				return ok && l.Op == token.MUL && l.X == ssa.Value(cell)
+			}
 			for _, ref := range *cell.Referrers() {
 				switch x := ref.(type) {
 				case *ssa.Store:
